@@ -50,6 +50,13 @@ func H_C20_hashes() {
 	vCheck(err == nil && c != nil, "hashes/NewCredentials-accepted")
 	if c != nil {
 		vCheck(vStrEq(c.GetNTHash(), wantNT) && vStrEq(c.GetLMHash(), wantLM), "hashes/NewCredentials-hashes")
+		vCheck(c.GetDomain() == "d" && c.GetUsername() == "u" && c.GetPassword() == "p", "hashes/NewCredentials-keeps-the-identity")
+		vCheck(c.IsDomainIdentity() && !c.IsLocalIdentity(), "hashes/domain-identity")
+		vCheck(c.CanPassTheHash() == (kind <= 2), "hashes/pass-the-hash-needs-an-NT-hash")
+	}
+	l, err := NewCredentials("", "", "p", h)
+	if err == nil && l != nil {
+		vCheck(l.IsLocalIdentity() && !l.IsDomainIdentity() && !l.CanPassTheHash(), "hashes/local-identity-without-user-cannot-pass-the-hash")
 	}
 	vCover("end")
 }
